@@ -788,3 +788,52 @@ func requiredPropagationRule(c *an.Ctx, rule string, dirs ...string) {
 	}
 	c.Floor(rule, n, 4, "required-flag propagations in loops")
 }
+
+// dslReexports: package dsl re-exports the constants and values of package expr under the same names
+// (`FormatIP = expr.FormatIP`, `StatusOK = expr.StatusOK`, `String = expr.String`). A declaration whose right-hand
+// side is a selector into package expr must select the name it declares: `FormatIP = expr.FormatIPv4` compiles,
+// and every design that says FormatIP then means something else.
+func dslReexports(c *an.Ctx, rule string) {
+	p := c.Pkg("dsl")
+	if p == nil {
+		return
+	}
+	n := 0
+	for _, file := range p.Syntax {
+		if strings.HasSuffix(c.Position(file.Pos()), "_test.go") {
+			continue
+		}
+		for _, d := range file.Decls {
+			gd, ok := d.(*ast.GenDecl)
+			if !ok || (gd.Tok != token.CONST && gd.Tok != token.VAR) {
+				continue
+			}
+			for _, sp := range gd.Specs {
+				vs := sp.(*ast.ValueSpec)
+				if len(vs.Names) != len(vs.Values) {
+					continue
+				}
+				for i, nm := range vs.Names {
+					se, ok := an.Unparen(vs.Values[i]).(*ast.SelectorExpr)
+					if !ok {
+						continue
+					}
+					pk, ok := se.X.(*ast.Ident)
+					if !ok {
+						continue
+					}
+					pn, ok := p.TypesInfo.Uses[pk].(*types.PkgName)
+					if !ok || pn.Imported().Path() != an.P("expr") {
+						continue
+					}
+					n++
+					if se.Sel.Name != nm.Name {
+						c.Failf(rule, "dsl."+nm.Name, vs.Pos(), "dsl.%s re-exports expr.%s: a design that uses %s gets the meaning of %s", nm.Name, se.Sel.Name, nm.Name, se.Sel.Name)
+					}
+				}
+			}
+		}
+	}
+	c.Okf(rule, "dsl#re-exports", "%d names of package expr are re-exported by package dsl under their own name", n)
+	c.Floor(rule, n, 60, "re-exports of package expr in package dsl")
+}
